@@ -274,6 +274,42 @@ theorem save_twice_same_workbook (wb : WB) (b : Spec.Book) (h : Sim wb b) :
 theorem sim_newFile : Sim newFile Spec.newFile :=
   All2.cons (Or.inl ⟨⟨[]⟩, rfl, wf_empty, abs_empty⟩) All2.nil
 
+/-! ## an open finding that the history theorem's hypothesis `HistOk` stands for -/
+
+/-- (finding, open) `SetRowVisible` accepts a row beyond `TotalRows` (it only rejects
+`row < 1`); the worksheet then has more row slots than `checkSheet` admits, so the part a
+save writes for it can no longer be loaded: on a worksheet that the save evicts (e.g.
+Sheet1 of NewFile) every later call on the sheet fails with ErrMaxRows, while without the
+save it keeps working. This is why `save_pure` assumes `HistOk`. -/
+theorem finding_hide_beyond_last_row (r : Nat) (hr : Facts.TotalRows < r) :
+    ∃ s', setRowHidden ⟨[]⟩ r true = Res.ok s' ∧
+      decodePart false (some (trimRow s').rows) = Res.err := by
+  have hr0 : r ≠ 0 := by omega
+  have hlt : ¬ (r < 1) := by omega
+  have hres : setRowHidden ⟨[]⟩ r true = Res.ok
+      ⟨((appendRows [] r).modify (r - 1) (fun x => { x with cells := fillColumns x.cells 0 r })).modify (r - 1)
+        (fun x => { x with hidden := true })⟩ := by
+    unfold setRowHidden prepareSheetXML
+    simp [hlt, hr0]
+  refine ⟨_, hres, ?_⟩
+  have h0 : (appendRows [] r)[r - 1]? = some ⟨r, false, []⟩ := by
+    unfold appendRows
+    have hpos : ([] : List Row).length < r := by simp; omega
+    rw [if_pos hpos]
+    simp only [List.nil_append, List.length_nil, Nat.sub_zero]
+    rw [List.getElem?_map, List.getElem?_range' (by omega)]
+    simp; omega
+  have hany : (trimRow ⟨((appendRows [] r).modify (r - 1) (fun x => { x with cells := fillColumns x.cells 0 r })).modify (r - 1)
+        (fun x => { x with hidden := true })⟩).rows.any (fun x => decide (x.r > Facts.TotalRows)) = true := by
+    rw [List.any_eq_true]
+    refine ⟨trimRow1 ⟨r, true, fillColumns [] 0 r⟩, ?_, by rw [trimRow1_r]; simpa using hr⟩
+    apply List.mem_of_getElem? (i := r - 1)
+    simp only [trimRow, List.getElem?_map, List.getElem?_modify, h0, if_true]
+    rfl
+  unfold decodePart
+  simp only [Option.getD_some, Bool.false_eq_true, if_false]
+  rw [checkSheet_err _ hany]
+
 /-! ## the defect that was repaired, as a theorem about the pre-fix save path -/
 
 def witness0 : Sheet :=
